@@ -4,88 +4,86 @@ import (
 	"fmt"
 
 	"pgregory.net/rapid"
-	"verif/stats"
 	"verif/val"
 )
-
-// genInfo carries what the generator did on behalf of the K08 exclusion (counted, not part of the case).
-type genInfo struct {
-	colliders  bool // hash-equal values are in the domain on purpose
-	redirected bool // ... and therefore every store of the case is array-based (exclusion active)
-	dropped    int  // values left out because their library hash equals that of another value (exclusion active)
-}
 
 var stock = []val.V{
 	val.I(1), val.I(2), val.I(3), val.N("/a"), val.N("/b"), val.S("a"), val.S("b"), val.F(1.5),
 	val.L(val.I(1), val.I(2)), val.P(val.N("/a"), val.I(1)),
 }
 
+// twinGroups are constants of different types with the same library hash (the hash of a number, time or
+// duration is its payload; names, strings and byte strings hash their text).
+func twinGroups(t *rapid.T) [][]val.V {
+	n := rapid.SampledFrom([]int64{5, 0, 1, 2, 1000000000}).Draw(t, "twinpayload")
+	txt := rapid.SampledFrom([]string{"/a", "/b", "/foo"}).Draw(t, "twintext")
+	return [][]val.V{
+		{val.I(n), val.D(n), val.T(n)},
+		{val.N(txt), val.S(txt), val.B([]byte(txt))},
+	}
+}
+
 type gen struct {
 	t         *rapid.T
-	n         int             // domain size
-	arrayOnly bool            // every leaf store is a MultiIndexedArrayInMemoryStore
-	used      map[string]bool // atoms placed in some layer of the store under test
-	mentioned []Atom          // atoms that occurred so far (to make hits likely)
-	present   []Atom          // guess: atoms added through the top-level store
-	removed   []Atom          // guess: atoms removed
-	baseAtoms []Atom          // atoms of read-only layers
-	main      bool            // building the store under test (not a merge source)
+	n         int     // domain size
+	twins     [][]int // per domain index: the other indices with the same library hash
+	twinIdx   []int   // indices that have a twin
+	stores    []Store
+	canRemove []bool
+	mentioned []Atom   // atoms that occurred so far (to make hits likely)
+	present   [][]Atom // per store, guess: atoms it holds through adds and merges
+	removed   [][]Atom // per store, guess: atoms removed
+	baseAtoms [][]Atom // per store: atoms of read-only layers
+	cur       int      // store being built
+	// after a merge: the two stores and the predicates involved, to provoke mutations right after it
+	hotStores []int
+	hotAtoms  []Atom
+	hotLeft   int
 }
 
 func atomID(a Atom) string { return fmt.Sprint(a.P, a.A) }
 
-// genDomain draws 2-6 distinct values. With colliders, a group of hash-equal values comes first. With
-// filterHash (K08 exclusion active, hash-keyed stores possible) a value whose library hash equals that of
-// an earlier value is left out: this is the exclusion, it is counted.
-func genDomain(t *rapid.T, colliders, filterHash bool, info *genInfo) []val.V {
-	n := rapid.IntRange(1, 6).Draw(t, "domsize")
+// genDomain draws 1-8 distinct values: usually one or two groups of hash twins of different types, now and
+// then a group of val.Colliders() or a value together with the number that is its hash, and stock / random
+// values.
+func genDomain(t *rapid.T) []val.V {
+	n := rapid.IntRange(1, 8).Draw(t, "domsize")
 	var dom []val.V
 	keys := map[string]bool{}
-	hashes := map[uint64]bool{}
 	add := func(v val.V) {
 		k := v.Key()
-		if keys[k] {
+		if keys[k] || len(dom) >= 9 {
 			return
-		}
-		if filterHash {
-			if collidingKeys(v) {
-				// a map whose keys have equal hashes has no canonical representation (K22, property C08):
-				// its hash may differ from build to build, so the filter below could not be trusted
-				info.dropped++
-				return
-			}
-			h := v.Build().Hash()
-			if hashes[h] {
-				info.dropped++
-				return
-			}
-			hashes[h] = true
 		}
 		keys[k] = true
 		dom = append(dom, v)
 	}
-	if colliders {
-		groups := val.Colliders()
-		switch rapid.IntRange(0, 4).Draw(t, "collmode") {
-		case 0:
-			// a random value and the number that is its hash
-			v := val.Gen(val.Options{MaxDepth: 2, NoDupKeys: true}).Draw(t, "collbase")
-			add(v)
-			add(val.I(int64(v.Build().Hash())))
-		case 1:
-			// same payload under different types: the hash is the payload
-			x := rapid.Int64Range(0, 3).Draw(t, "payload")
-			add(val.I(x))
-			add(val.T(x))
-			add(val.D(x))
-		default:
-			g := groups[rapid.IntRange(0, len(groups)-1).Draw(t, "collgroup")]
-			k := rapid.IntRange(2, len(g)).Draw(t, "collcount")
-			off := rapid.IntRange(0, len(g)-1).Draw(t, "colloff")
-			for i := 0; i < k; i++ {
-				add(g[(off+i)%len(g)])
-			}
+	group := func(g []val.V) {
+		k := rapid.IntRange(2, len(g)).Draw(t, "groupcount")
+		off := rapid.IntRange(0, len(g)-1).Draw(t, "groupoff")
+		for i := 0; i < k; i++ {
+			add(g[(off+i)%len(g)])
 		}
+	}
+	tg := twinGroups(t)
+	switch rapid.IntRange(0, 9).Draw(t, "twinmode") {
+	case 0, 1, 2:
+		group(tg[0])
+	case 3, 4, 5:
+		group(tg[1])
+	case 6, 7:
+		group(tg[0])
+		group(tg[1])
+	}
+	switch rapid.IntRange(0, 9).Draw(t, "collmode") {
+	case 0:
+		// a random value and the number that is its hash
+		v := val.Gen(val.Options{MaxDepth: 2, NoDupKeys: true}).Draw(t, "collbase")
+		add(v)
+		add(val.I(int64(v.Build().Hash())))
+	case 1, 2:
+		groups := val.Colliders()
+		group(groups[rapid.IntRange(0, len(groups)-1).Draw(t, "collgroup")])
 	}
 	for tries := 0; len(dom) < n && tries < 12; tries++ {
 		switch rapid.IntRange(0, 3).Draw(t, "valmode") {
@@ -103,35 +101,28 @@ func genDomain(t *rapid.T, colliders, filterHash bool, info *genInfo) []val.V {
 	return dom
 }
 
-// collidingKeys tells whether some map or struct inside v has two keys with the same library hash.
-func collidingKeys(v val.V) bool {
-	seen := map[uint64]bool{}
-	for _, kv := range v.KV {
-		h := kv[0].Build().Hash()
-		if seen[h] {
-			return true
-		}
-		seen[h] = true
-		if collidingKeys(kv[0]) || collidingKeys(kv[1]) {
-			return true
+// arg draws a domain index; values that have a hash twin are preferred, most of all in column 0.
+func (g *gen) arg(col int) int {
+	if len(g.twinIdx) > 0 {
+		w := rapid.IntRange(0, 9).Draw(g.t, "twinarg")
+		if w < 4 || (col == 0 && w < 7) {
+			return g.twinIdx[rapid.IntRange(0, len(g.twinIdx)-1).Draw(g.t, "twinargidx")]
 		}
 	}
-	for _, x := range v.E {
-		if collidingKeys(x) {
-			return true
-		}
+	return rapid.IntRange(0, g.n-1).Draw(g.t, "arg")
+}
+
+func (g *gen) freshAtomOf(p int) Atom {
+	a := Atom{P: p}
+	for i := 0; i < preds[p].Arity; i++ {
+		a.A = append(a.A, g.arg(i))
 	}
-	return false
+	return a
 }
 
 func (g *gen) freshAtom() Atom {
 	// weights: arity 0 rare, arities 1-3 common
-	p := rapid.SampledFrom([]int{0, 1, 1, 2, 2, 2, 3, 4, 4, 4, 5, 5, 6}).Draw(g.t, "pred")
-	a := Atom{P: p}
-	for i := 0; i < preds[p].Arity; i++ {
-		a.A = append(a.A, rapid.IntRange(0, g.n-1).Draw(g.t, "arg"))
-	}
-	return a
+	return g.freshAtomOf(rapid.SampledFrom([]int{0, 1, 1, 2, 2, 2, 3, 4, 4, 4, 5, 5, 6}).Draw(g.t, "pred"))
 }
 
 func (g *gen) pick(list []Atom, label string) Atom {
@@ -141,6 +132,11 @@ func (g *gen) pick(list []Atom, label string) Atom {
 func (g *gen) mention(a Atom) Atom {
 	g.mentioned = append(g.mentioned, a)
 	return a
+}
+
+type pref struct {
+	list []Atom
+	pct  int
 }
 
 // atom draws an atom, preferring (in this order, by the given percentages) the lists given.
@@ -156,15 +152,7 @@ func (g *gen) atom(label string, prefs ...pref) Atom {
 	return g.mention(g.freshAtom())
 }
 
-type pref struct {
-	list []Atom
-	pct  int
-}
-
 func (g *gen) leaf(needRemoveType bool) string {
-	if g.arrayOnly {
-		return kArray
-	}
 	ks := []string{kSimple, kIndexed, kMulti, kArray}
 	if !needRemoveType {
 		ks = append(ks, kTemporal, kTemporalAt)
@@ -172,7 +160,7 @@ func (g *gen) leaf(needRemoveType bool) string {
 	return rapid.SampledFrom(ks).Draw(g.t, "leaf")
 }
 
-// inits draws up to n atoms that no layer of the tree holds yet (layers are disjoint by construction).
+// inits draws up to max atoms that no layer of the tree holds yet (layers are disjoint by construction).
 func (g *gen) inits(max int, used map[string]bool, base bool) []Atom {
 	n := rapid.IntRange(0, max).Draw(g.t, "ninit")
 	var res []Atom
@@ -183,10 +171,10 @@ func (g *gen) inits(max int, used map[string]bool, base bool) []Atom {
 		}
 		used[atomID(a)] = true
 		res = append(res, a)
-		if g.main && base {
-			g.baseAtoms = append(g.baseAtoms, a)
-		} else if g.main {
-			g.present = append(g.present, a)
+		if base {
+			g.baseAtoms[g.cur] = append(g.baseAtoms[g.cur], a)
+		} else {
+			g.present[g.cur] = append(g.present[g.cur], a)
 		}
 	}
 	return res
@@ -226,14 +214,11 @@ func (g *gen) store(kind string, depth int, removable, base bool, used map[strin
 		s.Base = &b
 	case "leaf":
 		s.Kind = g.leaf(removable)
-		if s.Kind == kTemporalAt {
-			s.At = rapid.SampledFrom([]int64{0, 1, -1, 1704103200000000000}).Draw(g.t, "at")
-		}
 	default:
 		s.Kind = kind
-		if s.Kind == kTemporalAt {
-			s.At = rapid.SampledFrom([]int64{0, 1, -1, 1704103200000000000}).Draw(g.t, "at")
-		}
+	}
+	if s.Kind == kTemporalAt {
+		s.At = rapid.SampledFrom([]int64{0, 1, -1, 1704103200000000000}).Draw(g.t, "at")
 	}
 	if maxInit > 0 {
 		s.Init = g.inits(maxInit, used, base)
@@ -241,17 +226,28 @@ func (g *gen) store(kind string, depth int, removable, base bool, used map[strin
 	return s
 }
 
-// cols draws the columns of a query on predicate p. mode 1: constants only after the first column
-// (the first is a variable or wildcard); mode 2: one variable in two columns; otherwise free.
-func (g *gen) cols(p int, mode int) []Col {
+// cols draws the columns of a query on predicate p.
+//
+//	mode 1: constants only after the first column (the first is a variable or wildcard)
+//	mode 2: one variable in two columns
+//	mode 3: as a stored atom, but one column (mostly the first) carries a hash twin of the stored value
+//	otherwise free
+func (g *gen) cols(on, p int, mode int) []Col {
 	ar := preds[p].Arity
 	cols := make([]Col, ar)
 	// a stored atom of the predicate, so that constants hit
 	var hint *Atom
 	var cands []Atom
-	for _, a := range g.mentioned {
+	for _, a := range g.present[on] {
 		if a.P == p {
 			cands = append(cands, a)
+		}
+	}
+	if len(cands) == 0 {
+		for _, a := range g.mentioned {
+			if a.P == p {
+				cands = append(cands, a)
+			}
 		}
 	}
 	if len(cands) > 0 {
@@ -262,7 +258,7 @@ func (g *gen) cols(p int, mode int) []Col {
 		if hint != nil && rapid.IntRange(0, 9).Draw(g.t, "usehint") < 8 {
 			return Col{K: "c", I: hint.A[i]}
 		}
-		return Col{K: "c", I: rapid.IntRange(0, g.n-1).Draw(g.t, "constidx")}
+		return Col{K: "c", I: g.arg(i)}
 	}
 	for i := 0; i < ar; i++ {
 		switch w := rapid.IntRange(0, 9).Draw(g.t, "col"); {
@@ -284,100 +280,166 @@ func (g *gen) cols(p int, mode int) []Col {
 		cols[j] = Col{K: "v", I: 0}
 		cols[k] = Col{K: "v", I: 0}
 	}
+	if mode == 3 && ar >= 1 && hint != nil {
+		j := 0
+		if rapid.IntRange(0, 9).Draw(g.t, "twincol0") >= 6 {
+			j = rapid.IntRange(0, ar-1).Draw(g.t, "twincol")
+		}
+		if tw := g.twins[hint.A[j]]; len(tw) > 0 {
+			cols[j] = Col{K: "c", I: tw[rapid.IntRange(0, len(tw)-1).Draw(g.t, "twin")]}
+			// the other columns agree with the stored atom or are open
+			for i := 0; i < ar; i++ {
+				if i != j && cols[i].K == "c" {
+					cols[i] = Col{K: "c", I: hint.A[i]}
+				}
+			}
+		}
+	}
 	return cols
 }
 
 var topKinds = []string{kSimple, kIndexed, kMulti, kArray, kMerged, kTeeing, kConcurrent, kTemporal, kTemporalAt}
 
-func genCase(t *rapid.T) (Case, genInfo) {
-	var info genInfo
-	excl := stats.Exclusion(exclK08)
-	info.colliders = rapid.IntRange(0, 3).Draw(t, "colliders") == 0
-	info.redirected = info.colliders && excl
-	dom := genDomain(t, info.colliders, excl && !info.colliders, &info)
-	g := &gen{t: t, n: len(dom), arrayOnly: info.redirected, used: map[string]bool{}}
+// secondary stores: plain stores most of the time (they are merge sources and merge targets)
+var secondaryKinds = []string{kSimple, kSimple, kIndexed, kIndexed, kMulti, kMulti, kArray, kArray, kTemporal, kTemporalAt, kMerged, kTeeing, kConcurrent}
+
+func genCase(t *rapid.T) Case {
+	dom := genDomain(t)
+	g := &gen{t: t, n: len(dom)}
+	// hash twins: by the library hash (the generator may look at it, the oracle does not)
+	hs := make([]uint64, len(dom))
+	for i, v := range dom {
+		hs[i] = v.Build().Hash()
+	}
+	g.twins = make([][]int, len(dom))
+	for i := range dom {
+		for j := range dom {
+			if i != j && hs[i] == hs[j] {
+				g.twins[i] = append(g.twins[i], j)
+			}
+		}
+		if len(g.twins[i]) > 0 {
+			g.twinIdx = append(g.twinIdx, i)
+		}
+	}
 	c := Case{Dom: dom}
 
-	kinds := topKinds
-	if g.arrayOnly {
-		kinds = []string{kArray, kArray, kMerged, kTeeing, kConcurrent}
+	nsec := rapid.IntRange(1, 3).Draw(t, "nsecondary")
+	for i := 0; i <= nsec; i++ {
+		g.cur = i
+		g.present = append(g.present, nil)
+		g.removed = append(g.removed, nil)
+		g.baseAtoms = append(g.baseAtoms, nil)
+		var s Store
+		if i == 0 {
+			s = g.store(rapid.SampledFrom(topKinds).Draw(t, "kind"), 2, false, false, map[string]bool{}, 0)
+		} else {
+			s = g.store(rapid.SampledFrom(secondaryKinds).Draw(t, "skind"), 1, false, false, map[string]bool{}, 3)
+		}
+		g.stores = append(g.stores, s)
+		g.canRemove = append(g.canRemove, supportsRemove(s))
 	}
-	g.main = true
-	c.Store = g.store(rapid.SampledFrom(kinds).Draw(t, "kind"), 2, false, false, g.used, 0)
-	g.main = false
-	canRemove := supportsRemove(c.Store)
+	c.Stores = g.stores
 
 	// Blocks of steps: rapid can delete any step or block while shrinking, and the lengths are not skewed
-	// towards very short histories (about 30 steps on average, up to 160).
+	// towards very short histories (about 25 steps on average).
 	blocks := rapid.SliceOfN(rapid.SliceOfN(rapid.Custom(func(st *rapid.T) Step {
 		g.t = st
-		return g.step(canRemove)
-	}), 0, 16), 2, 10).Draw(t, "steps")
+		return g.step()
+	}), 0, 16), 2, 8).Draw(t, "steps")
+	g.t = t
 	for _, b := range blocks {
 		c.Steps = append(c.Steps, b...)
 	}
-	g.t = t
-	return c, info
+	return c
 }
 
-func collectInits(s Store, into *[]Atom) {
-	*into = append(*into, s.Init...)
-	for _, r := range s.Reads {
-		collectInits(r, into)
+// target draws the store a step acts on: the primary about half of the time.
+func (g *gen) target() int {
+	if rapid.IntRange(0, 9).Draw(g.t, "onprimary") < 5 {
+		return 0
 	}
-	if s.Base != nil {
-		collectInits(*s.Base, into)
-	}
+	return rapid.IntRange(1, len(g.stores)-1).Draw(g.t, "on")
 }
 
 // step draws one operation; the lists of mentioned / present / removed atoms make hits likely.
-func (g *gen) step(canRemove bool) Step {
+func (g *gen) step() Step {
+	// Right after a merge: change one of the two stores on a predicate that took part in it (a new atom of
+	// such a predicate, or the removal of a merged atom), so that state shared between them shows up.
+	if g.hotLeft > 0 && len(g.hotAtoms) > 0 && rapid.IntRange(0, 9).Draw(g.t, "hot") < 6 {
+		g.hotLeft--
+		on := g.hotStores[rapid.IntRange(0, 1).Draw(g.t, "hotstore")]
+		h := g.pick(g.hotAtoms, "hotatom")
+		if g.canRemove[on] && rapid.IntRange(0, 9).Draw(g.t, "hotremove") < 4 {
+			g.removed[on] = append(g.removed[on], h)
+			return Step{Op: "remove", On: on, Atom: &h}
+		}
+		a := g.mention(g.freshAtomOf(h.P))
+		g.present[on] = append(g.present[on], a)
+		return Step{Op: "add", On: on, Atom: &a}
+	}
+	on := g.target()
 	var s Step
 	switch w := rapid.IntRange(0, 99).Draw(g.t, "op"); {
-	case w < 30:
-		a := g.atom("add", pref{g.removed, 30}, pref{g.baseAtoms, 10}, pref{g.mentioned, 15})
-		s = Step{Op: "add", Atom: &a}
-		g.present = append(g.present, a)
-	case w < 46:
-		if !canRemove {
+	case w < 28:
+		a := g.atom("add", pref{g.removed[on], 30}, pref{g.baseAtoms[on], 10}, pref{g.mentioned, 15})
+		s = Step{Op: "add", On: on, Atom: &a}
+		g.present[on] = append(g.present[on], a)
+	case w < 43:
+		if !g.canRemove[on] {
 			a := g.atom("contains", pref{g.mentioned, 60})
-			s = Step{Op: "contains", Atom: &a}
+			s = Step{Op: "contains", On: on, Atom: &a}
 			break
 		}
-		a := g.atom("remove", pref{g.present, 65}, pref{g.baseAtoms, 15}, pref{g.mentioned, 5})
-		s = Step{Op: "remove", Atom: &a}
-		g.removed = append(g.removed, a)
-	case w < 56:
-		a := g.atom("contains", pref{g.mentioned, 60})
-		s = Step{Op: "contains", Atom: &a}
-	case w < 78:
-		mode := rapid.SampledFrom([]int{0, 0, 0, 1, 1, 2}).Draw(g.t, "qmode")
+		a := g.atom("remove", pref{g.present[on], 65}, pref{g.baseAtoms[on], 15}, pref{g.mentioned, 5})
+		s = Step{Op: "remove", On: on, Atom: &a}
+		g.removed[on] = append(g.removed[on], a)
+	case w < 52:
+		a := g.atom("contains", pref{g.present[on], 40}, pref{g.mentioned, 30})
+		s = Step{Op: "contains", On: on, Atom: &a}
+	case w < 77:
+		mode := rapid.SampledFrom([]int{0, 0, 0, 1, 1, 2, 3, 3}).Draw(g.t, "qmode")
+		if len(g.twinIdx) == 0 && mode == 3 {
+			mode = 0
+		}
 		p := rapid.SampledFrom([]int{0, 1, 2, 2, 2, 3, 4, 4, 4, 5, 5, 5, 6}).Draw(g.t, "qpred")
-		if mode != 0 {
+		if mode == 1 || mode == 2 {
 			p = rapid.SampledFrom([]int{2, 4, 5}).Draw(g.t, "qpred2")
 		}
 		var cands []Atom
-		for _, a := range g.mentioned {
-			if mode == 0 || preds[a.P].Arity >= 2 {
+		for _, a := range g.present[on] {
+			if mode == 0 || (mode == 3 && len(a.A) >= 1) || len(a.A) >= 2 {
 				cands = append(cands, a)
 			}
 		}
 		if len(cands) > 0 && rapid.IntRange(0, 3).Draw(g.t, "qhit") > 0 {
 			p = g.pick(cands, "qof").P
 		}
-		s = Step{Op: "query", Pred: p, Cols: g.cols(p, mode)}
+		s = Step{Op: "query", On: on, Pred: p, Cols: g.cols(on, p, mode)}
 	case w < 90:
-		o := g.store("", 1, false, false, map[string]bool{}, 5)
-		if len(o.Init) == 0 && o.Base == nil {
-			a := g.atom("minit", pref{g.mentioned, 25})
-			o.Init = []Atom{a}
+		// merge: into the primary, out of the primary, or between secondary stores
+		from := 0
+		switch d := rapid.IntRange(0, 9).Draw(g.t, "mergedir"); {
+		case d < 5 || (d >= 8 && len(g.stores) < 3):
+			on = 0
+			from = rapid.IntRange(1, len(g.stores)-1).Draw(g.t, "from")
+		case d < 8:
+			on = rapid.IntRange(1, len(g.stores)-1).Draw(g.t, "into")
+			from = 0
+		default:
+			on = rapid.IntRange(1, len(g.stores)-1).Draw(g.t, "into")
+			from = 1 + (on-1+rapid.IntRange(1, len(g.stores)-2).Draw(g.t, "fromoff"))%(len(g.stores)-1)
 		}
-		s = Step{Op: "merge", Other: &o}
-		collectInits(o, &g.present)
+		s = Step{Op: "merge", On: on, From: from}
+		src := append(append([]Atom(nil), g.present[from]...), g.baseAtoms[from]...)
+		g.present[on] = append(g.present[on], src...)
+		g.hotStores = []int{from, on}
+		g.hotAtoms = src
+		g.hotLeft = 3
 	case w < 95:
-		s = Step{Op: "preds"}
+		s = Step{Op: "preds", On: on}
 	default:
-		s = Step{Op: "count"}
+		s = Step{Op: "count", On: on}
 	}
 	return s
 }
